@@ -461,8 +461,10 @@ impl AtomicCacheMetrics {
     /// Reduced precision snapshot for hot paths.
     #[inline]
     pub fn fast_snapshot(&self) -> FastCacheMetrics {
+        let get_count = self.get_count.load(Ordering::Relaxed);
+        vp_sched!("metrics.snapshot.hit");
         FastCacheMetrics {
-            get_count: self.get_count.load(Ordering::Relaxed),
+            get_count,
             hit_count: self.hit_count.load(Ordering::Relaxed),
             entry_count: self.entry_count.load(Ordering::Relaxed) as u64,
             memory_usage_mb: (self.memory_usage_bytes.load(Ordering::Relaxed) / (1024 * 1024))
